@@ -1633,6 +1633,65 @@ class Interp:
     def st_Continue(self, st, state, frame):
         return [Outcome('continue', state)]
 
+    def st_Match(self, st, state, frame):
+        """match / case over value, singleton, or-, capture, wildcard and
+        argument-less class patterns: desugared into an if / elif chain on a
+        temporary that holds the subject."""
+        tmp = '$match%d' % next(self.fresh)
+        state.env[tmp] = self.eval(st.subject, state, frame)
+        frame.locals.add(tmp)
+
+        def subj():
+            return ast.Name(id=tmp, ctx=ast.Load())
+
+        def test_of(pat, binds):
+            if isinstance(pat, ast.MatchValue):
+                return ast.Compare(left=subj(), ops=[ast.Eq()],
+                                   comparators=[pat.value])
+            if isinstance(pat, ast.MatchSingleton):
+                return ast.Compare(left=subj(), ops=[ast.Is()],
+                                   comparators=[ast.Constant(pat.value)])
+            if isinstance(pat, ast.MatchOr):
+                return ast.BoolOp(op=ast.Or(), values=[
+                    test_of(p_, binds) for p_ in pat.patterns])
+            if isinstance(pat, ast.MatchAs):
+                inner = ast.Constant(True) if pat.pattern is None else \
+                    test_of(pat.pattern, binds)
+                if pat.name is not None:
+                    binds.append(pat.name)
+                return inner
+            if isinstance(pat, ast.MatchClass) and not pat.patterns and \
+                    not pat.kwd_patterns:
+                return ast.Call(func=ast.Name(id='isinstance',
+                                              ctx=ast.Load()),
+                                args=[subj(), pat.cls], keywords=[])
+            raise Unsupported('match pattern %s at %s' % (
+                type(pat).__name__, self.site(st)))
+
+        chain = None
+        for case in reversed(st.cases):
+            binds = []
+            test = test_of(case.pattern, binds)
+            body = [ast.Assign(targets=[ast.Name(id=b, ctx=ast.Store())],
+                               value=subj()) for b in binds] + \
+                list(case.body)
+            if case.guard is not None:
+                if binds:
+                    raise Unsupported('guarded capture pattern at ' +
+                                      self.site(st))
+                test = ast.BoolOp(op=ast.And(), values=[test, case.guard])
+            node = ast.If(test=test, body=body,
+                          orelse=[chain] if chain is not None else [])
+            ast.copy_location(node, case.pattern)
+            chain = node
+        if chain is None:
+            return [Outcome('normal', state)]
+        for n in ast.walk(chain):
+            if not hasattr(n, 'lineno'):
+                ast.copy_location(n, st)
+        ast.fix_missing_locations(chain)
+        return self.st_If(chain, state, frame)
+
     def st_With(self, st, state, frame):
         if len(st.items) == 1 and isinstance(st.items[0].context_expr,
                                              ast.Call):
